@@ -4,14 +4,14 @@ from .methods import bf_core_query, METHODS, BY_NAME, method_query
 
 BUILD_ARGS = {"scale": None}
 QUICK_METHODS = ["md5crypt", "nt", "bigcrypt", "descrypt", "bsdicrypt", "sunmd5", "bcrypt", "bcrypt_x", "yescrypt", "scrypt"]
-THOROUGH_METHODS = QUICK_METHODS + ["sunmd5-comma", "sunmd5-rounds", "sunmd5-comma-rounds", "sha256crypt", "sha256crypt-rounds", "sha512crypt", "sha512crypt-rounds", "sha1crypt"]
+THOROUGH_METHODS = QUICK_METHODS + ["sunmd5-comma", "sunmd5-rounds", "sunmd5-comma-rounds", "sha256crypt", "sha256crypt-rounds", "sha512crypt", "sha512crypt-rounds"]
 META = {
     "level": "other",
     "explanation": "CBMC with all pointer/bounds/overflow/shift checks on each real crypt_<m>_rn, called as do_crypt calls it: output and scratch are two objects of the real sizes (any write outside them, e.g. into the application-owned setting/input fields, is an out-of-object access), phrase and setting are exact-fit objects (the NUL is the last byte), digest kernels are havoc models that check readability of their input ranges; stretch loops abstracted after K iterations.",
-    "functions": ["crypt_{md5crypt,sha256crypt,sha512crypt,sunmd5,sha1crypt,nt,bigcrypt,descrypt,bsdicrypt}_rn", "check_badsalt_chars", "get_hashfn"],
+    "functions": ["crypt_{md5crypt,sha256crypt,sha512crypt,sunmd5,nt,bigcrypt,descrypt,bsdicrypt}_rn", "check_badsalt_chars", "get_hashfn"],
     "bounds": {"quick": {"setting tail": "per method 8..40 symbolic bytes after the fixed prefix", "phrase": "<= 16 (bigcrypt 20) symbolic bytes", "stretch loops": "3 iterations then abstracted"},
                "thorough": {"setting tail": "same", "phrase": "<= 24", "stretch loops": "8 iterations"}},
-    "outside": ["memory safety inside the digest/cipher kernels with symbolic data (C16/C17 cover Update/Final framing and DES)",
+    "outside": ["crypt_sha1crypt_rn as a method query (no verdict in 50 minutes even with the iteration count fixed: two snprintf calls with symbolic precision plus strspn over the alphabet); it is covered through C02 (structure, concrete lengths), C10 (composition with gensalt, thorough) and C01/C07 (thorough grids)", "memory safety inside the digest/cipher kernels with symbolic data (C16/C17 cover Update/Final framing and DES)",
                 "bcrypt: the wrappers crypt_bcrypt*_rn / BF_full_crypt (self-test logic, final copy) are real, BF_crypt itself is a contract stub (models/bf_stub.c); yescrypt, scrypt, gost-yescrypt method bodies are not encoded",
                 "settings longer than the stated bounds (queries with 340..420-character settings, even with the length fixed and constant fill, gave no verdict in 25 minutes; seeds C04-m2/C06-m1 - sunmd5 space check at salt part 361 - are therefore not detected); stretch-loop iterations beyond K"],
     "assumptions": ["setting passed to a method contains no byte rejected by check_badsalt_chars (do_crypt establishes it: C05)",
